@@ -432,7 +432,7 @@ def ev_sibling(c) -> R:
 
 # names the tool opens without having listed them as covered files: something that is no regular file may sit there
 SPECIAL_PLACES = [".reuse/dep5", "REUSE.toml", "src/REUSE.toml", "LICENSES/LicenseRef-x.txt", "LICENSES/0BSD.txt", ".reuse/templates/t.jinja2", "src/b.c.license"]
-SPECIAL_TIMEOUT = 20
+SPECIAL_TIMEOUT = 60
 
 
 def ev_special(c) -> R:
